@@ -505,3 +505,24 @@ func vh_C20_CurryDefConcurrentMarkDone() {
 	vfAssert("later-call-is-a-no-op", invocations == 1 && c.Result() == 1)
 	vfReach("end")
 }
+
+// CurryNew (the interface{} constructor) accumulates arguments like CurryNewGenerics
+func vh_C20_CurryNew() {
+	x, y := vfInt("x"), vfInt("y")
+	calls := 0
+	var lastArgs []interface{}
+	c := CurryNew(func(c *CurryDef[interface{}, interface{}], args ...interface{}) interface{} {
+		calls++
+		lastArgs = append([]interface{}{}, args...)
+		if len(args) >= 2 {
+			c.MarkDone()
+		}
+		return len(args)
+	})
+	vfNoPanic("nopanic", func() { c.Call(x); c.Call(y); c.Call(x) })
+	vfAssert("invoked-once-per-call", calls == 2)
+	vfAssert("sees-all-args-so-far", len(lastArgs) == 2 && lastArgs[0] == interface{}(x) && lastArgs[1] == interface{}(y))
+	vfAssert("isdone", c.IsDone())
+	vfAssert("frozen-result", c.Result() == interface{}(2))
+	vfReach("end")
+}
